@@ -1689,3 +1689,73 @@ def gen_norm_consts():
             raise TranslateError("%s: handleEOL: %s not found" % (rel, what))
     out += "\nend XV.Gen.NormConsts\n"
     return out
+# ---- C01 follow-up (builder) ----
+# ------------------------------------------------------------------ C01: AbstractDOMParser members that point into a document
+@translate.register("DomParserFields")
+def gen_dom_parser_fields():
+    """Data members of AbstractDOMParser (from the class definition), which of them are raw pointers to DOM node classes
+    (= point into the heap of the document being built), and the members assigned by reset() and the same-object methods it
+    calls.  Textual and path-insensitive, like C15's ScannerFields (which covers the scanner classes)."""
+    rel_h, rel_c = "parsers/AbstractDOMParser.hpp", "parsers/AbstractDOMParser.cpp"
+    h = strip_c_comments(src(rel_h)); c = strip_c_comments(src(rel_c))
+    m = re.search(r"class\s+PARSERS_EXPORT\s+AbstractDOMParser\b.*?\n\};", h, re.S)
+    if not m:
+        raise TranslateError("class AbstractDOMParser not found in " + rel_h)
+    cls = m.group(0)
+    members = []
+    for mm in re.finditer(r"^[ \t]*((?:const\s+)?[A-Za-z_][\w:]*(?:\s*<[^;()]*>)?(?:\s*[*&])*)\s+(f[A-Z]\w*)\s*;", cls, re.M):
+        ty = re.sub(r"\s+", "", mm.group(1))
+        members.append((mm.group(2), ty))
+    names = [n for n, _ in members]
+    if len(names) != len(set(names)) or len(members) < 15:
+        raise TranslateError("AbstractDOMParser data members not recognised (%d found)" % len(members))
+    for need in ("fCurrentParent", "fCurrentNode", "fCurrentEntity", "fDocument", "fDocumentType", "fDocumentVector", "fScanner"):
+        if need not in names:
+            raise TranslateError("AbstractDOMParser member %s not found" % need)
+    methods = set(re.findall(r"\bAbstractDOMParser::(\w+)\s*\(", c))
+    def closure(start):
+        seen, todo, assigned, nulled = [], [start], [], []
+        while todo:
+            fn = todo.pop()
+            if fn in seen:
+                continue
+            seen.append(fn)
+            body = _func_body_c01(c, r"\bvoid\s+AbstractDOMParser::%s\s*\(" % re.escape(fn), rel_c)
+            for a in re.findall(r"\b(f[A-Z]\w*)\s*=(?!=)", body):
+                if a in names and a not in assigned:
+                    assigned.append(a)
+            for a in re.findall(r"\b(f[A-Z]\w*)\s*=\s*(?:0|NULL|nullptr)\s*;", body):
+                if a in names and a not in nulled:
+                    nulled.append(a)
+            for callee in re.findall(r"(?<![\w>.:])(?:this->)?(\w+)\s*\(", body):
+                if callee in methods and callee not in seen and callee != fn and re.search(r"\bvoid\s+AbstractDOMParser::%s\s*\(" % re.escape(callee), c):
+                    todo.append(callee)
+        return seen, assigned, nulled
+    rseen, rassigned, rnulled = closure("reset")
+    _, rd_assigned, _ = closure("resetDocument")
+    rd_body = _func_body_c01(c, r"\bvoid\s+AbstractDOMParser::resetDocument\s*\(", rel_c)
+    pr_body = _func_body_c01(c, r"\bvoid\s+AbstractDOMParser::parseReset\s*\(", rel_c)
+    calls_reset = lambda b: bool(re.search(r"(?<![\w>.:])(?:this->)?reset\s*\(\s*\)", b))
+    # every scanner's scanReset(const InputSource&) announces the new document to the document handler
+    sites = []
+    for cls_name, files in (("IGXMLScanner", ["internal/IGXMLScanner2.cpp"]), ("WFXMLScanner", ["internal/WFXMLScanner.cpp"]),
+                            ("DGXMLScanner", ["internal/DGXMLScanner.cpp"]), ("SGXMLScanner", ["internal/SGXMLScanner.cpp"]),
+                            ("XSAXMLScanner", ["internal/XSAXMLScanner.cpp"])):
+        t = strip_c_comments(src(files[0]))
+        body = _func_body_c01(t, r"\bvoid\s+%s::scanReset\s*\(\s*const\s+InputSource" % cls_name, files[0])
+        sites.append((cls_name, bool(re.search(r"fDocHandler\s*->\s*resetDocument\s*\(\s*\)", body))))
+    out = HEADER + "namespace XV.Gen.DomParserFields\n\n"
+    out += "structure Member where\n  name : String\n  type : String\n  docPointer : Bool   -- raw pointer to a DOM node class: points into a document's heap\n  deriving Repr, DecidableEq\n\n"
+    out += "-- parsers/AbstractDOMParser.hpp\ndef members : List Member := [\n"
+    out += ",\n".join('  ⟨"%s", "%s", %s⟩' % (n, ty.replace('"', ''), "true" if re.fullmatch(r"DOM\w+\*", ty) else "false") for n, ty in members) + "]\n\n"
+    out += "-- parsers/AbstractDOMParser.cpp: reset() and the same-object methods it calls; members they assign\n"
+    out += "def resetClosure : List String := [%s]\n" % ", ".join('"%s"' % x for x in rseen)
+    out += "def assignedInReset : List String := [%s]\n" % ", ".join('"%s"' % x for x in rassigned)
+    out += "def assignedNullInReset : List String := [%s]\n" % ", ".join('"%s"' % x for x in rnulled)
+    out += "def assignedInResetDocument : List String := [%s]\n" % ", ".join('"%s"' % x for x in rd_assigned)
+    out += "def resetDocumentCallsReset : Bool := %s\ndef parseResetCallsReset : Bool := %s\n" % (
+        "true" if calls_reset(rd_body) else "false", "true" if calls_reset(pr_body) else "false")
+    out += "-- internal/*Scanner*.cpp: does scanReset(const InputSource&) call fDocHandler->resetDocument()?\n"
+    out += "def scanResetAnnounces : List (String × Bool) := [%s]\n\n" % ", ".join('("%s", %s)' % (n, "true" if b else "false") for n, b in sites)
+    out += "end XV.Gen.DomParserFields\n"
+    return out
